@@ -14,7 +14,7 @@
 From Coq Require Import String.
 From Sakura.Model Require Import Base Cursor Song Token LexCore RunCore Compile.
 From Sakura.Gen Require Import Consts Messages SysFuncRows WriteSites.
-From Sakura.Proofs Require Import LayoutP LogP.
+From Sakura.Proofs Require Import LayoutP LogP LocalityP LogExecP.
 Open Scope list_scope.
 Open Scope Z_scope.
 
@@ -146,6 +146,46 @@ Example C19_example :
      zs "[ERROR](2) Unknown Character: ""~"" near """ ++ [8629] ++ zs """"].
 Proof. repeat split; try (vm_compute; reflexivity). eexists; split; vm_compute; reflexivity. Qed.
 
+(* ================================================================================================== *)
+(* THE WHOLE PIPELINE MODEL, every source (proofs/LogExecP.v).
+   The log of the song that exec() returns never has more than SAKURA_MAX_LOGS = 100 entries: the lexer keeps the bound
+   (C19_lex_log_bound), Song::new + the lexer's log starts within it, every arm of the runner keeps it - the arms that write
+   are the time / time-signature / RPN argument errors (runtime_error), the "Undefined" warning of a macro call (add_log),
+   and the lexing done AT RUN TIME for macro calls and PLAY parts (the song's log goes through the lexer and comes back:
+   ls_of_song / song_with_ls) - and so does exec_f at any nesting.  get_logs_str then cuts the text at
+   SAKURA_MAX_LOGS_CHARS = 4096 characters plus "...".  ([PRINT] entries belong to the script fragment, model/Script.v.) *)
+Theorem C19_compile_log_entries : forall (src : list Z) (s : song),
+  run_source src = Ok s -> zlen (s_logs s) <= SAKURA_MAX_LOGS /\ (length (s_logs s) <= 100)%nat.
+Proof. exact (fun src s E => conj (run_source_logs src s E) (compile_log_entries src s E)). Qed.
+Theorem C19_exec_log_bound : forall (steps d : nat) (toks : list tok) (s s2 : song),
+  zlen (s_logs s) <= SAKURA_MAX_LOGS -> exec_f d steps toks (Ok s) = Ok s2 -> zlen (s_logs s2) <= SAKURA_MAX_LOGS.
+Proof. exact exec_f_logs_inv. Qed.
+Theorem C19_compile_log_chars : forall (src : list Z) (bytes : list Z) (log : list Z),
+  compile src = Ok (bytes, log) -> zlen log <= SAKURA_MAX_LOGS_CHARS + 3.
+Proof. exact compile_log_bound. Qed.
+
+(* End / END at command position: the loop answers at once, whatever follows the word (the loop tests the PREFIX End / END) ... *)
+Theorem C19_after_end_loop : forall f n ls (c : Z) (r t : list Z) ln h acc, zen2han c = 69 ->
+  prefixb (zs "nd") r || prefixb (zs "ND") r = true ->
+  LOOP f (S n) ls (c :: r ++ t) ln h acc = Ok (acc, ls) /\ LOOP f (S n) ls (c :: r) ln h acc = Ok (acc, ls).
+Proof. exact after_end_loop. Qed.
+(* ... and for the whole lexer, on a program read command by command (LocalityP.runs, C18_lex_compositional_partial) followed by
+   End: the tokens and the lexer state are those of the isolated runs, the same with any text t after the word and with none.
+   The premises are stated for both texts: the scan of lex_preprocess finds no FUNCTION (it stops at the WORD End / END, so
+   `Endx FUNCTION ..` is scanned on while the loop has stopped - the pre-scan and the loop do not agree on what ends a text),
+   and the commands run in isolation (the last command's stop character may be the E itself only if that is text_ok). *)
+Theorem C19_after_end_partial : forall (its0 : list litem) (p : cprog) (t : list Z) ls ln lsA lnA hA accA lsB lnB hB accB,
+  forallb litem_ok its0 = true -> forallb is_layout its0 = true ->
+  lex_pre (print_items its0 ++ print_cprog p ++ zs "End" ++ t) = false -> lex_pre (print_items its0 ++ print_cprog p ++ zs "End") = false ->
+  (forall f, runs f ls (ln + items_lines its0) false ([TLineNo ln] ++ items_toks ln its0) p (zs "End" ++ t) lsA lnA hA accA) ->
+  (forall f, runs f ls (ln + items_lines its0) false ([TLineNo ln] ++ items_toks ln its0) p (zs "End") lsB lnB hB accB) ->
+  lex ls (print_items its0 ++ print_cprog p ++ zs "End" ++ t) ln = Ok (accA, lsA) /\
+  lex ls (print_items its0 ++ print_cprog p ++ zs "End") ln = Ok (accA, lsA).
+Proof. exact after_end_lex. Qed.
+Example C19_after_end_example : exists acc ls',
+  lex ls00 (zs "c d;End [ x { FUNCTION F(){ } TR(") 0 = Ok (acc, ls') /\ lex ls00 (zs "c d;End") 0 = Ok (acc, ls') /\ length acc = 3%nat.
+Proof. exact end_example. Qed.
+
 Print Assumptions C19_constants.
 Print Assumptions C19_log_bound.
 Print Assumptions C19_lex_log_bound.
@@ -159,3 +199,8 @@ Print Assumptions C19_end.
 Print Assumptions C19_line_counter.
 Print Assumptions C19_only_layout_and_errors.
 Print Assumptions C19_unguarded_prints.
+Print Assumptions C19_compile_log_entries.
+Print Assumptions C19_exec_log_bound.
+Print Assumptions C19_compile_log_chars.
+Print Assumptions C19_after_end_loop.
+Print Assumptions C19_after_end_partial.
